@@ -103,6 +103,96 @@ def go_trace(spec, ins, ticks):
     return {"bm": spec, "env": env, "ticks": ticks}
 
 
+def gen_basm(rnd):
+    """one processor assembled from BASM (so that the requirement tree exists), constant inputs"""
+    rsize = rnd.choice([8, 16])
+    nreg = rnd.choice([2, 3, 4])
+    lines = ["%section code .romtext iomode:async", "  entry _start", "_start:"]
+    n = rnd.randint(4, 10)
+    for k in range(n):
+        r1, r2 = rnd.randrange(nreg), rnd.randrange(nreg)
+        c = rnd.randrange(10)
+        if c < 3:
+            lines.append("  mov r%d, %d" % (r1, rnd.choice([1, 2, 3, 7, 100])))
+        elif c < 5:
+            lines.append("  rset r%d, %d" % (r1, rnd.choice([1, 2, 3, 7, 100])))
+        elif c < 7:
+            lines.append("  %s r%d, r%d" % (rnd.choice(["add", "sub", "mult", "cpy"]), r1, r2))
+        elif c < 8:
+            lines.append("  mov r%d, r%d" % (r1, r2))
+        elif c < 9:
+            lines.append("  %s r%d" % (rnd.choice(["inc", "dec", "clr"]), r1))
+        else:
+            lines.append("  mov r%d, i0" % r1)
+    lines += ["  mov o0, r%d" % rnd.randrange(nreg), "  mov o0, r0", "  j _start", "%endsection", "%meta cpdef cpu romcode:code",
+              "%meta iodef a type:io", "%meta ioatt a cp:bm, type:input, index:0", "%meta ioatt a cp:cpu, type:input, index:0",
+              "%meta iodef b type:io", "%meta ioatt b cp:cpu, type:output, index:0", "%meta ioatt b cp:bm, type:output, index:0",
+              "%%meta bmdef global registersize:%d" % rsize]
+    if not any("i0" in l for l in lines[:n + 3]):
+        lines.insert(3, "  mov r0, i0")
+    return "\n".join(lines) + "\n", rsize
+
+
+def hwopt_part(res, rnd, a):
+    """enabling a hardware optimisation derived from the program never changes the behaviour: the same BASM source rendered
+    plainly and with onlydestregs, both run under Vlog.Sem and compared with the simulator at retire points"""
+    n = 6 if a.tier == "quick" else 60
+    srcs = [gen_basm(rnd) for _ in range(n)]
+    ticks = 40
+    inval = [rnd.randrange(1, 200) for _ in srcs]
+    go = simlib.run_sims([{"bm": {"basm": s, "nodyn": True}, "env": [{"in": [[v, 1]], "outrecv": [-1]}] * ticks, "ticks": ticks}
+                          for (s, _), v in zip(srcs, inval)])
+    viol = []
+    prep = []
+    for flags in ([], ["onlydestregs"]):
+        vl = C.jsonl(C.sh([C.BMH, "vlog"], input="".join(json.dumps({"kind": "bm", "bm": {"basm": s, "nodyn": True}, "hwopt": flags}) + "\n"
+                                                          for s, _ in srcs), timeout=1800).stdout)
+        for (s, rsize), v, g, iv in zip(srcs, vl, go, inval):
+            meta = {"source": s, "hwopt": flags, "input": iv}
+            if g.get("err") or v.get("err"):
+                viol.append(("the machine cannot be simulated or rendered (hardware optimisations %s): %s" % (flags, g.get("err") or v.get("err")), meta))
+                continue
+            try:
+                em, term, flat = vsim.flat_design(v["files"], "bondmachine")
+            except Exception as e:
+                viol.append(("the generated Verilog does not parse (hardware optimisations %s): %s" % (flags, e), meta))
+                continue
+            nreg = 1 << g["procinfo"][0][1]
+            pre = "a0_inst/p0_instance/"
+            known_names = set(em.I.names)
+            obs = [pre + "_pc"] + [pre + "_r%d" % i for i in range(nreg) if pre + "_r%d" % i in known_names] + ["o0"]
+            row = {"clk": 0, "reset": 0, "i0": iv, "i0_valid": 1, "o0_received": 0}
+            rst = dict(row)
+            rst["reset"] = 1
+            prep.append((em, term, [rst] * 2 + [row] * (3 * ticks), obs, meta, g, nreg))
+    outs = C.eval_cases_parallel("C01h", [vsim.sim_body(em, term, rows, obs) for em, term, rows, obs, _, _, _ in prep], timeout=3000)
+    done = 0
+    for (em, term, rows, obs, meta, g, nreg), o in zip(prep, outs):
+        res.count_case(meta, nontrivial=True)
+        try:
+            hrows = vsim.check_rows(o["M"])
+        except vsim.VsimError as e:
+            viol.append(("the generated Verilog cannot be executed (hardware optimisations %s): %s" % (meta["hwopt"], e), meta))
+            continue
+        prog = g["progs"][0]
+        regnames = [x.split("/")[-1] for x in obs[1:-1]]        # registers the (possibly pruned) hardware still has
+        ridx = [int(x[2:]) for x in regnames]
+        gseq = [(0, tuple(0 for _ in ridx), (0,))] + [(t["procs"][0]["pc"], tuple(t["procs"][0]["regs"][i] for i in ridx), tuple(t["procs"][0]["out"]))
+                                                       for t in g["ticks"]]
+        hseq = [(r[0], tuple(r[1:1 + len(ridx)]), tuple(r[1 + len(ridx):2 + len(ridx)])) for r in hrows[1:]]
+        gd, hd = dedupe([x for x in gseq if x[0] < len(prog)]), dedupe([x for x in hseq if x[0] < len(prog)])
+        m = min(len(gd), len(hd))
+        done += 1
+        for k in range(m):
+            if gd[k] != hd[k]:
+                prev_pc = gd[k - 1][0] if k else 0
+                viol.append(("with hardware optimisations %s, after retiring '%s' the simulator has pc=%d regs=%s out=%s, the generated hardware pc=%d regs=%s out=%s"
+                             % (meta["hwopt"] or "off", prog[prev_pc] if prev_pc < len(prog) else "?", gd[k][0], list(gd[k][1]), list(gd[k][2]),
+                                hd[k][0], list(hd[k][1]), list(hd[k][2])), meta))
+                break
+    return viol, done
+
+
 def run(res, a):
     failed = C.proof_part(res, "C01", trusted=[
         "Vlog/Sem.v as the meaning of the emitted Verilog (cycle-based, trusted); lib/vparse.py + lib/vcoq.py front-end",
@@ -185,6 +275,9 @@ def run(res, a):
                 else:
                     viol.append((text, meta))
                 break
+    hw_viol, hw_n = hwopt_part(res, rnd, a)
+    viol += hw_viol
+    hist["hw_optimised_machines_compared"] = hw_n
     cov = res.coverage
     cov["rule"] = ("single-processor machines: register size 8/16/32 (64 thorough), R 1-3, 0-2 inputs and outputs bonded to the machine's ports, programs of "
                    "3-14 instructions over add sub mult cpy and or xor not nand nor xnor clr inc dec rset j jz nop i2r r2o with random extra opcodes in the "
